@@ -834,30 +834,7 @@ func checkPriorityQueueBound(r *Reporter, p *Prog) {
 				}
 			}
 		}
-		// ... and the element it refers to belongs to this Push alone: a recycled element (free list,
-		// pool) gives the stale handle of a popped element power over the element's next occupant
-		{
-			info := p.Pkg(pkg).TypesInfo
-			pf := newFuncCFG(p, info, fdp.Body, pkg+".PriorityQueue.Push")
-			nPush, reused := 0, ""
-			for _, c := range pf.Calls(func(c *ast.CallExpr) bool { return qualifiedCallee(info, c) == "container/heap.Push" && len(c.Args) == 2 }) {
-				cpt, found := pf.PointOf(c)
-				if !found {
-					continue
-				}
-				nPush++
-				if why := notFreshlyAllocated(pf, info, c.Args[1], cpt); why != "" {
-					reused = pf.PosOf(cpt) + ": " + why
-				}
-			}
-			if nPush == 0 {
-				r.Fail("handle/fresh-element", pkg+".PriorityQueue.Push", p.posStr(fdp.Pos()), "no heap.Push of the new element found (vacuous)")
-			} else if reused != "" {
-				r.Fail("handle/fresh-element", pkg+".PriorityQueue.Push", p.posStr(fdp.Pos()), "the element a removal handle refers to must be allocated by this Push: "+reused+" - the handle of an element that already left the queue then removes a different, still queued element")
-			} else {
-				r.Pass("handle/fresh-element", pkg+".PriorityQueue.Push", p.posStr(fdp.Pos()), "the pushed element is a fresh allocation on every path")
-			}
-		}
+		checkFreshPushedElement(r, p, pkg, "PriorityQueue", "Push")
 		if ok {
 			r.Pass("pair/removal-handle", pkg+".PriorityQueue.Push", p.posStr(fdp.Pos()), "the removal handle removes only while the element's index is not -1 (idempotent)")
 		} else {
@@ -1301,4 +1278,37 @@ func boolHelperStandsFor(p *Prog, info *types.Info, c *ast.CallExpr) (*ast.CallE
 		return nil, false, false
 	}
 	return inner, neg, true
+}
+
+// checkFreshPushedElement (rule handle/fresh-element): the operation hands out a handle (a removal
+// closure, a cancellable element) that refers to the heap element it pushes; that element must belong
+// to this call alone. A recycled element (free list, sync.Pool) gives the stale handle of an element
+// that already left the queue power over the element's next occupant.
+func checkFreshPushedElement(r *Reporter, p *Prog, pkg, typ, method string) {
+	key := pkg + "." + typ + "." + method
+	fd := p.FuncDecl(pkg, typ, method)
+	if fd == nil {
+		r.Unresolved("handle/fresh-element", key, "method not found")
+		return
+	}
+	info := p.Pkg(pkg).TypesInfo
+	pf := newFuncCFG(p, info, fd.Body, key)
+	nPush, reused := 0, ""
+	for _, c := range pf.Calls(func(c *ast.CallExpr) bool { return qualifiedCallee(info, c) == "container/heap.Push" && len(c.Args) == 2 }) {
+		cpt, found := pf.PointOf(c)
+		if !found {
+			continue
+		}
+		nPush++
+		if why := notFreshlyAllocated(pf, info, c.Args[1], cpt); why != "" {
+			reused = pf.PosOf(cpt) + ": " + why
+		}
+	}
+	if nPush == 0 {
+		r.Fail("handle/fresh-element", key, p.posStr(fd.Pos()), "no heap.Push of the new element found (vacuous)")
+	} else if reused != "" {
+		r.Fail("handle/fresh-element", key, p.posStr(fd.Pos()), "the element a handle refers to must be allocated by this call: "+reused+" - the handle of an element that already left the queue then removes or cancels a different, still queued element")
+	} else {
+		r.Pass("handle/fresh-element", key, p.posStr(fd.Pos()), "the pushed element is a fresh allocation on every path")
+	}
 }
